@@ -89,6 +89,16 @@ fn rune_amt(zero_weight: u32) -> impl Strategy<Value = RuneAmt> {
   ]
 }
 
+fn split_amt() -> impl Strategy<Value = RuneAmt> {
+  prop_oneof![
+    1 => Just(RuneAmt::Zero),
+    3 => Just(RuneAmt::One),
+    12 => any::<u16>().prop_map(RuneAmt::Frac),
+    3 => Just(RuneAmt::Full),
+    1 => (0u16..5).prop_map(RuneAmt::Over),
+  ]
+}
+
 fn rune_spec() -> impl Strategy<Value = RuneSpec> {
   (
     prop_oneof![Just(0u8), Just(0u8), 1u8..=8, Just(18u8), Just(38u8)],
@@ -153,7 +163,7 @@ fn split_out() -> impl Strategy<Value = SplitOut> {
   (
     10u8..14,
     proptest::option::weighted(0.5, 330u64..20_000),
-    proptest::collection::vec((0u16..3, rune_amt(1)), 0..=3),
+    proptest::collection::vec((0u16..3, split_amt()), 0..=3),
   )
     .prop_map(|(dest, value, runes)| SplitOut { dest, value, runes })
 }
@@ -171,7 +181,7 @@ fn cmd(rune_weight: u32, other_weight: u32) -> impl Strategy<Value = Cmd> {
 }
 
 fn step(rune_weight: u32, other_weight: u32) -> impl Strategy<Value = Step> {
-  (cmd(rune_weight, other_weight), prop_oneof![Just(0u8), Just(1u8), 2u8..6], proptest::bool::weighted(0.15))
+  (cmd(rune_weight, other_weight), prop_oneof![Just(0u8), Just(1u8), 2u8..6], proptest::bool::weighted(0.25))
     .prop_map(|(cmd, fee_rate, dry_run)| Step { cmd, fee_rate, dry_run })
 }
 
@@ -475,6 +485,9 @@ fn c23_check(case: &WalletCase, cx: &Cx) -> CheckResult {
     cx.label(&format!("cmd:{kind}"));
     if run.ok {
       cx.label(&format!("ok:{kind}"));
+      if step.dry_run && !matches!(step.cmd, Cmd::Mint { .. } | Cmd::OfferCreate { .. }) {
+        cx.label(&format!("ok-dry-run:{kind}"));
+      }
     }
     let txs: Vec<&Transaction> = run.broadcast.iter().chain(run.offered.iter()).collect();
     let mut selected_by_node = 0u32;
@@ -580,6 +593,10 @@ pub fn c23(s: &mut Session) -> Meta {
       "ok:mint",
       "ok:split",
       "ok:offer-create",
+      "ok-dry-run:send-sats",
+      "ok-dry-run:send-rune",
+      "ok-dry-run:burn-rune",
+      "ok-dry-run:split",
       "tempting:send-sats",
       "tempting:send-rune",
       "tempting:mint",
@@ -850,7 +867,17 @@ fn split_case(max_outputs: usize) -> BoxedStrategy<SplitCase> {
     1u8..=4,
     proptest::collection::vec(
       proptest::collection::vec(
-        (0u8..4, prop_oneof![1u128..20, 1u128..1_000_000, (1u128 << 64)..(1u128 << 100)].prop_map(U128)),
+        (
+          0u8..4,
+          prop_oneof![
+            3 => 1u128..20,
+            3 => 1u128..1_000_000,
+            2 => (1u128 << 64)..(1u128 << 100),
+            1 => ((1u128 << 127) - 5)..((1u128 << 127) + 5),
+            1 => (u128::MAX - 5)..=u128::MAX,
+          ]
+          .prop_map(U128),
+        ),
         1..=3,
       ),
       0..=6,
@@ -978,6 +1005,7 @@ fn c22_split_check(case: &SplitCase, cx: &Cx) -> CheckResult {
     })
     .collect();
   let mut balances: BTreeMap<OutPoint, BTreeMap<Rune, u128>> = BTreeMap::new();
+  let mut supply_left: BTreeMap<Rune, u128> = BTreeMap::new();
   for (i, output) in case.balances.iter().enumerate() {
     let outpoint = OutPoint {
       txid: Txid::from_byte_array([i as u8 + 1; 32]),
@@ -986,8 +1014,17 @@ fn c22_split_check(case: &SplitCase, cx: &Cx) -> CheckResult {
     let entry = balances.entry(outpoint).or_default();
     for (rune, amount) in output {
       let (rune, _) = runes[usize::from(*rune) % nrunes];
-      let e = entry.entry(rune).or_insert(0);
-      *e = e.saturating_add(amount.0);
+      // a rune's supply is at most u128::MAX over all outputs
+      let left = supply_left.entry(rune).or_insert(u128::MAX);
+      let amount = amount.0.min(*left);
+      if amount == 0 {
+        continue;
+      }
+      *left -= amount;
+      *entry.entry(rune).or_insert(0) += amount;
+    }
+    if entry.is_empty() {
+      balances.remove(&outpoint);
     }
   }
   let total = |rune: Rune| -> u128 { balances.values().map(|m| m.get(&rune).copied().unwrap_or(0)).sum() };
@@ -996,6 +1033,7 @@ fn c22_split_check(case: &SplitCase, cx: &Cx) -> CheckResult {
   let mut outputs = Vec::new();
   let mut zero = false;
   let mut over = false;
+  let mut asked: BTreeMap<Rune, u128> = BTreeMap::new();
   let mut wanted: BTreeMap<(bitcoin::ScriptBuf, Rune), u128> = BTreeMap::new();
   for (address, value, wants) in &case.outputs {
     let mut address = pool[usize::from(*address) % pool.len()].clone();
@@ -1009,7 +1047,11 @@ fn c22_split_check(case: &SplitCase, cx: &Cx) -> CheckResult {
         continue;
       }
       let available = remaining[&rune];
-      let amount = resolve(amount, available).min(u128::MAX / 16);
+      // the amounts asked of one rune never add up beyond u128::MAX (the
+      // constructor adds them with checked_add(..).unwrap())
+      let asked_so_far = asked.get(&rune).copied().unwrap_or(0);
+      let amount = resolve(amount, available).min(u128::MAX - asked_so_far);
+      asked.insert(rune, asked_so_far + amount);
       if amount == 0 {
         zero = true;
       }
@@ -1203,6 +1245,8 @@ pub struct Trial {
   pub pay: PayKind,
   pub named: NamedKind,
   pub amount_delta: i8,
+  /// name the magnitude of the balance change even when the wallet loses it
+  pub magnitude_amount: bool,
   pub extra_wallet_output: Option<u64>,
   pub dry_run: bool,
 }
@@ -1280,7 +1324,7 @@ fn offer_inventory() -> impl Strategy<Value = InventorySpec> {
 
 fn seller_kind() -> impl Strategy<Value = SellerKind> {
   prop_oneof![
-    8 => Just(SellerKind::Single),
+    16 => Just(SellerKind::Single),
     2 => Just(SellerKind::Multi),
     2 => Just(SellerKind::Runic),
     2 => Just(SellerKind::Both),
@@ -1304,7 +1348,7 @@ fn trial() -> impl Strategy<Value = Trial> {
     ],
     prop_oneof![12 => Just(SigKind::Unsigned), 1 => Just(SigKind::Witness), 1 => Just(SigKind::ScriptSig)],
     0u8..4,
-    proptest::collection::vec(buyer_sig, 0..=3),
+    prop_oneof![1 => proptest::collection::vec(buyer_sig.clone(), 0..=0), 12 => proptest::collection::vec(buyer_sig, 1..=3)],
     prop_oneof![1000u64..1_000_000, Just(0u64), Just(1u64)],
     prop_oneof![
       12 => Just(PayKind::Exact),
@@ -1318,12 +1362,12 @@ fn trial() -> impl Strategy<Value = Trial> {
       1 => Just(NamedKind::OtherInWallet),
       1 => Just(NamedKind::Foreign),
     ],
-    prop_oneof![12 => Just(0i8), 1 => Just(1i8), 1 => Just(-1i8), 1 => any::<i8>()],
+    (prop_oneof![12 => Just(0i8), 1 => Just(1i8), 1 => Just(-1i8), 1 => any::<i8>()], proptest::bool::weighted(0.15)),
     proptest::option::weighted(0.08, 330u64..100_000),
     proptest::bool::weighted(0.2),
   )
     .prop_map(
-      |(sellers, seller_sig, seller_position, buyer_sigs, price, pay, named, amount_delta, extra_wallet_output, dry_run)| Trial {
+      |(sellers, seller_sig, seller_position, buyer_sigs, price, pay, named, (amount_delta, magnitude_amount), extra_wallet_output, dry_run)| Trial {
         sellers,
         seller_sig,
         seller_position,
@@ -1332,6 +1376,7 @@ fn trial() -> impl Strategy<Value = Trial> {
         pay,
         named,
         amount_delta,
+        magnitude_amount,
         extra_wallet_output,
         dry_run,
       },
@@ -1421,14 +1466,28 @@ fn c24_check(case: &OfferCase, cx: &Cx) -> CheckResult {
         script_pubkey: seller_address.script_pubkey(),
       });
     }
-    outputs.push(TxOut {
-      value: Amount::from_sat(50_000),
-      script_pubkey: foreign_address(31).script_pubkey(),
-    });
     if let Some(value) = trial.extra_wallet_output {
       outputs.push(TxOut {
         value: Amount::from_sat(value),
         script_pubkey: env.wallet_address().script_pubkey(),
+      });
+    }
+    // the offered transaction must not create value: the buyer's change
+    // takes what is left, and an underfunded shape is not presented
+    let total_in: u64 = inputs
+      .iter()
+      .filter_map(|(outpoint, _, _)| env.tx_out(outpoint))
+      .map(|o| o.value.to_sat())
+      .sum();
+    let total_out: u64 = outputs.iter().map(|o| o.value.to_sat()).sum();
+    if total_in < total_out {
+      cx.label("skipped:underfunded-shape");
+      continue;
+    }
+    if total_in - total_out >= 1_000 {
+      outputs.push(TxOut {
+        value: Amount::from_sat(total_in - total_out - 500),
+        script_pubkey: foreign_address(31).script_pubkey(),
       });
     }
     let tx = Transaction {
@@ -1482,7 +1541,14 @@ fn c24_check(case: &OfferCase, cx: &Cx) -> CheckResult {
       .map(|o| o.value.to_sat())
       .sum();
     let change = i128::from(wallet_out) - i128::from(wallet_in);
-    let amount_arg = (change.max(0) + i128::from(trial.amount_delta)).max(0) as u64;
+    let amount_arg = if trial.magnitude_amount {
+      change.unsigned_abs() as u64
+    } else {
+      (change.max(0) + i128::from(trial.amount_delta)).max(0) as u64
+    };
+    if change < 0 && i128::from(amount_arg) == -change {
+      cx.label("amount-names-a-loss");
+    }
 
     // ---- the advertised-trade predicate, clause by clause
     let wallet_inputs: Vec<usize> = tx
@@ -1635,7 +1701,7 @@ pub fn c24(s: &mut Session) -> Meta {
   );
   Meta {
     level: "exploration",
-    rule: "Each case builds a wallet on the mock node (outputs with exactly one inscription, with 2..3 inscriptions, with runes, with an inscription and runes, and cardinal ones) and presents 1..8 generated PSBTs to the real `ord wallet offer accept` (subprocess, live server). A PSBT starts from a well-formed offer (buyer inputs signed, one wallet input holding exactly the named inscription, the wallet paid postage + price, --amount = price) and is perturbed: zero, two or three wallet inputs; a wallet input with several inscriptions, runes, both, or none; another inscription named (a later one on the same output, one elsewhere in the wallet, a foreign one); payment short, over or missing, an extra output to the wallet, --amount off by one or more; buyer inputs unsigned, signed by script_sig, by a different witness, or both; the wallet's input already signed; any input order; --dry-run. Oracle: if the command exits 0 or a transaction reaches the mock mempool then every clause of the property holds by the harness' own computation from the PSBT, the mock node's UTXO set and the index's /output JSON (exactly one wallet input; it holds exactly the named inscription and no runes; wallet outputs minus wallet inputs equals --amount; every other input carries a final signature), the broadcast transaction is the offered one and its other inputs carry exactly the PSBT's signatures; --dry-run broadcasts nothing. Non-trivial = an accepted well-formed offer, or a rejected PSBT violating exactly one clause; distinct by (case, trial).",
+    rule: "Each case builds a wallet on the mock node (outputs with exactly one inscription, with 2..3 inscriptions, with runes, with an inscription and runes, and cardinal ones) and presents 1..8 generated PSBTs to the real `ord wallet offer accept` (subprocess, live server). A PSBT starts from a well-formed offer (buyer inputs signed, one wallet input holding exactly the named inscription, the wallet paid postage + price, --amount = price) and is perturbed: zero, two or three wallet inputs; a wallet input with several inscriptions, runes, both, or none; another inscription named (a later one on the same output, one elsewhere in the wallet, a foreign one); payment short, over or missing, an extra output to the wallet, --amount off by one or more or naming the magnitude of a loss; buyer inputs unsigned, signed by script_sig, by a different witness, or both; the wallet's input already signed; any input order; --dry-run. Oracle: if the command exits 0 or a transaction reaches the mock mempool then every clause of the property holds by the harness' own computation from the PSBT, the mock node's UTXO set and the index's /output JSON (exactly one wallet input; it holds exactly the named inscription and no runes; wallet outputs minus wallet inputs equals --amount; every other input carries a final signature), the broadcast transaction is the offered one and its other inputs carry exactly the PSBT's signatures; --dry-run broadcasts nothing. Non-trivial = an accepted well-formed offer, or a rejected PSBT violating exactly one clause; distinct by (case, trial).",
     assumptions: &[
       "the mock node signs by writing a fixed 64-byte witness and its finalizepsbt discards existing signatures; buyer signatures equal to that witness survive, any other is (correctly) refused by ord after signing",
       "inputs carrying both a final script_sig and a final witness are refused by ord as malformed and are not judged",
@@ -1648,6 +1714,7 @@ pub fn c24(s: &mut Session) -> Meta {
       "rejected-only:runes",
       "rejected-only:amount",
       "rejected-only:unsigned-other-input",
+      "amount-names-a-loss",
     ],
   }
 }
